@@ -55,11 +55,9 @@ func (p *pipeReader) bytes() []byte {
 	return append([]byte{}, p.buf.Bytes()...)
 }
 
-func checkPipesCase(res *Result, r *ppRunner, lines [][]byte, calls []specCall, cs interface{}, tag string, rng *rand.Rand) {
-	for _, c := range calls {
-		if c.Err != "" && c.Err != "eof" {
-			return // pp stops at a parse error: no streaming claim
-		}
+func checkPipesCase(res *Result, r *ppRunner, lines [][]byte, calls []specCall, pp *ppSpec, cs interface{}, tag string, rng *rand.Rand) {
+	if !pp.Determined {
+		return // pp stops at a parse error: no streaming claim
 	}
 	// expected output as a function of the number of complete lines delivered
 	type seg struct {
@@ -176,17 +174,10 @@ func checkPipesCase(res *Result, r *ppRunner, lines [][]byte, calls []specCall, 
 		okTotal := false
 		var want0 []byte
 		for _, v := range [][2]bool{{false, false}, {true, false}, {true, true}, {false, true}} {
-			var want []byte
-			for i := range calls {
-				c := &calls[i]
-				e := expectCall(lines, c, v[0], v[1])
-				want = append(want, e.fwd...)
-				if len(c.Snap) != 0 {
-					want = append(want, r.render(cat(lines, c.Cons)).stdout...)
-				}
-				if c.Err == "eof" {
-					want = append(want, e.rest...)
-				}
+			want, ok := ppWant(r, lines, calls, pp, v[0], v[1])
+			if !ok {
+				okTotal = true
+				break
 			}
 			if want0 == nil {
 				want0 = want
@@ -304,7 +295,7 @@ func init() {
 					}
 					lines[k] = renderLine(&alpha[x-1], eol, jr, false)
 				}
-				checkPipesCase(res, r, lines, pc.Calls, pc, fmt.Sprintf("pipe case %d", i), jr)
+				checkPipesCase(res, r, lines, pc.Calls, &pc.PP, pc, fmt.Sprintf("pipe case %d", i), jr)
 				res.eval(pc.raw, true, sampleEvery(i, 97, pc))
 			}(i)
 		}
@@ -320,7 +311,7 @@ func init() {
 				for k := range pc.Lines {
 					lines[k] = p.render(k, &pc.Lines[k], false)
 				}
-				checkPipesCase(res, r, lines, pc.Calls, map[string]interface{}{"mode": pc.Mode, "lines": len(pc.Lines)}, fmt.Sprintf("print case %d", i), jr)
+				checkPipesCase(res, r, lines, pc.Calls, &pc.PP, map[string]interface{}{"mode": pc.Mode, "lines": len(pc.Lines)}, fmt.Sprintf("print case %d", i), jr)
 				res.eval(pc.raw, true, nil)
 			}(i)
 		}
